@@ -44,6 +44,58 @@ def find_def(tree: ast.Module, qualname: str) -> ast.AST:
     return node
 
 
+
+def inline_statement_calls(tree: ast.Module, fn: ast.FunctionDef, depth: int = 2) -> ast.FunctionDef:
+    """a copy of `fn` in which every statement that is a bare call `helper(a, b)` of a module-level function of
+    the same file is replaced by the helper's body with its parameters renamed to the arguments.  Only the shape
+    whose meaning is exactly "the helper's statements run here" is inlined: positional plain-name arguments, one per
+    parameter, no defaults / *args / **kwargs, a helper body without return / yield / nested definitions, and no
+    assignment to a parameter inside the helper.  Anything else is left as it is (and is then judged, as before, by
+    the shape checks of the caller).  This lets the extractors follow the extraction of a common prelude into a
+    helper (a strict refactoring) instead of reporting a shape they do not know."""
+    import copy
+    helpers = {n.name: n for n in tree.body if isinstance(n, ast.FunctionDef)}
+
+    def inlinable(call: ast.Call):
+        if not isinstance(call.func, ast.Name) or call.func.id not in helpers or call.func.id == fn.name:
+            return None
+        h = helpers[call.func.id]
+        a = h.args
+        if a.vararg or a.kwarg or a.kwonlyargs or a.posonlyargs or a.defaults or call.keywords:
+            return None
+        if len(call.args) != len(a.args) or not all(isinstance(x, ast.Name) for x in call.args):
+            return None
+        for n in ast.walk(h):
+            if n is not h and isinstance(n, (ast.Return, ast.Yield, ast.YieldFrom, ast.FunctionDef, ast.Lambda,
+                                              ast.ClassDef, ast.Global, ast.Nonlocal)):
+                return None
+            if isinstance(n, ast.Name) and isinstance(n.ctx, (ast.Store, ast.Del)):
+                return None      # the helper binds a name: inlining could capture a variable of the caller
+        return h
+
+    class Rename(ast.NodeTransformer):
+        def __init__(self, m):
+            self.m = m
+
+        def visit_Name(self, node):
+            return ast.copy_location(ast.Name(id=self.m.get(node.id, node.id), ctx=node.ctx), node)
+
+    def expand(stmts, d):
+        out = []
+        for st in stmts:
+            h = inlinable(st.value) if isinstance(st, ast.Expr) and isinstance(st.value, ast.Call) else None
+            if h is None or d <= 0:
+                out.append(st)
+                continue
+            m = {p.arg: x.id for p, x in zip(h.args.args, st.value.args)}
+            body = [b for b in h.body if not (isinstance(b, ast.Expr) and isinstance(b.value, ast.Constant))]
+            body = [Rename(m).visit(copy.deepcopy(b)) for b in body]
+            out.extend(expand(body, d - 1))
+        return out
+    new = copy.deepcopy(fn)
+    new.body = expand(new.body, depth)
+    return new
+
 def literal(node: ast.AST) -> Any:
     try:
         return ast.literal_eval(node)
